@@ -96,7 +96,6 @@ static Call calls[MAXCALLS];
 static int ncalls;
 static char *probes[8];
 static int nprobes;
-static int pair_max = 3;
 static dbus_uint32_t cur_serial;  /* serial of the request under test (attempt or retry) */
 
 /* ---- the injector's decision function, interposed -------------------------------
@@ -338,6 +337,7 @@ static dbus_uint32_t issue (const char *op)
         m = driver_call (kind == 'A' ? "AddMatch" : "RemoveMatch"); dbus_message_append_args (m, DBUS_TYPE_STRING, &s, DBUS_TYPE_INVALID); free (s); break; }
     case 'M': { char *tf; const char *d = dest_of (f[1], &tf); dbus_uint32_t tag = (dbus_uint32_t) atoi (f[2]);
         m = dbus_message_new_method_call (d, "/v", "v.T", "Call"); if (!m) die ("oom");
+        dbus_message_set_auto_start (m, FALSE);
         dbus_message_append_args (m, DBUS_TYPE_UINT32, &tag, DBUS_TYPE_INVALID); free (tf); break; }
     case 'Y': case 'E': { char *tf; const char *d = dest_of (f[1], &tf); int tag = atoi (f[2]); int j; dbus_uint32_t rs = 0xfffffff0u;
         for (j = ncalls - 1; j >= 0; j--) if (calls[j].tag == tag) { rs = calls[j].serial; break; }
@@ -421,7 +421,7 @@ static void snapshot (Buf *o)
   int i, n = 0; char **all = NULL;
   /* 1. the queues of the names of the case and of every client's unique name */
   { int any = 0;
-    for (i = 0; i < nnames; i++) { bput (o, "%s", any ? ";" : ""); any = 1; put_str (o, names[i]); bput (o, "="); snap_queue (o, names[i]); }
+    for (i = 0; i < nnames; i++) { const char *q; bput (o, "%s", any ? ";" : ""); any = 1; if (!names[i][0]) bput (o, "-"); for (q = names[i]; *q; q++) bput (o, "%02x", (unsigned char) *q); bput (o, "="); snap_queue (o, names[i]); }
     for (i = 0; i < ncl; i++) if (cl[i].uname[0]) { bput (o, "%sc%d=", any ? ";" : "", i); any = 1; snap_queue (o, cl[i].uname); } }
   /* 2. ListNames as a sorted set (catches stray services) */
   if (!bus_registry_list_services (bus_context_get_registry (ctx), &all, &n)) die ("oom listing services");
@@ -602,8 +602,9 @@ static void bus_case (char **tok, int ntok, Buf *res)
   char **ops; int nops = 0, i, sep = -1;
   const char *testop;
   Buf prev = { NULL, 0, 0 }, cur = { NULL, 0, 0 };
-  int run = 0, pairmode = strcmp (mode, "pair") == 0;
-  int d, crashes = 0, total_k = 0;
+  int run = 0, pairmode = strncmp (mode, "pair", 4) == 0;
+  int d, di, crashes = 0, total_k = 0;
+  int gaps[8], ngaps = 0;
   long unfailed_allocs = -1;
   char errpath[128];
   sscanf (tok[2], "%d,%d,%d", &lim[0], &lim[1], &lim[2]);
@@ -617,9 +618,17 @@ static void bus_case (char **tok, int ntok, Buf *res)
   for (i = 4; i < ntok; i++) if (tok[i][0] == 'R' || tok[i][0] == 'L') { char b[1024]; char *q; strncpy (b, tok[i], sizeof b - 1); b[sizeof b - 1] = 0; q = strchr (b, ','); if (q) { char *e = strchr (q + 1, ','); if (e) *e = 0; remember_name (q + 1); } }
   snprintf (errpath, sizeof errpath, "/tmp/oom_h_%d.err", (int) getpid ());
   breset (&prev); breset (&cur);
-  for (d = (pairmode ? 1 : 0); d <= (pairmode ? pair_max : 0); d++)
+  if (pairmode)
     {
-      int start_k = 0, done = 0, want_base = (d == (pairmode ? 1 : 0));
+      const char *g = strchr (mode, ':');
+      if (g) { char gb[128]; char *q; strncpy (gb, g + 1, sizeof gb - 1); gb[sizeof gb - 1] = 0; for (q = strtok (gb, ","); q && ngaps < 8; q = strtok (NULL, ",")) gaps[ngaps++] = atoi (q); }
+      if (ngaps == 0) { gaps[0] = 1; gaps[1] = 2; gaps[2] = 3; ngaps = 3; }
+    }
+  else { gaps[0] = 0; ngaps = 1; }
+  for (di = 0; di < ngaps; di++)
+    {
+      int start_k = 0, done = 0, want_base = (di == 0);
+      d = gaps[di];
       if (pairmode) { if (run > 0) bput (res, " ## %d*%s", run, prev.b); run = 0; breset (&prev); bput (res, " ## d=%d", d); }
       while (!done)
         {
@@ -692,6 +701,198 @@ static void bus_case (char **tok, int ntok, Buf *res)
   free (cur.b); free (prev.b);
 }
 
+
+/* ---- library leg -------------------------------------------------------------------------------
+   lib new <call|signal|ret|err> <hexdest|-> <hexpath> <hexiface> <hexmember>
+   lib append <arg> ...      arg: s<hex> | u<n> | y<n> | t<n> | a<hex>:<hex>:... (array of strings, dbus_message_append_args)
+   lib copy <arg> ...        a message with these arguments is copied
+   lib set <field> <hexvalue> field: destination sender member interface path error_name | serial <n>
+   lib rule <hexrule>        bus_match_rule_parse
+   lib config <n>            bus_config_load of built-in configuration number n
+   For k = 0, 1, ... the k-th allocation of the operation fails.  Result:
+     <n>*<verdict> ## ... with verdict
+       ok:<hex of result>          completed; (the last one, f0, is the unfailed reference)
+       oom-unchanged               reported failure, the object it worked on is byte-identical, nothing leaked
+       BAD:<what>                  anything else */
+static char *msg_hex (DBusMessage *m)
+{
+  char *buf = NULL; int len = 0; char *out; int i;
+  if (!dbus_message_marshal (m, &buf, &len)) die ("oom marshalling");
+  out = malloc ((size_t) len * 2 + 2);
+  for (i = 0; i < len; i++) sprintf (out + 2 * i, "%02x", (unsigned char) buf[i]);
+  out[2 * len] = 0;
+  dbus_free (buf);
+  return out;
+}
+
+static DBusMessage *base_message (void)
+{
+  DBusMessage *m = dbus_message_new_method_call ("v.Dest", "/v/obj", "v.Iface", "Member");
+  const char *s = "hello"; dbus_uint32_t u = 7;
+  if (!m || !dbus_message_append_args (m, DBUS_TYPE_STRING, &s, DBUS_TYPE_UINT32, &u, DBUS_TYPE_INVALID)) die ("oom base message");
+  dbus_message_set_serial (m, 5);
+  return m;
+}
+
+/* append the arguments tok[0..n) to m; FALSE on allocation failure */
+static dbus_bool_t append_args (DBusMessage *m, char **tok, int n)
+{
+  int i;
+  for (i = 0; i < n; i++)
+    {
+      const char *a = tok[i];
+      if (a[0] == 's') { int l; char *v = (char *) unhex (a + 1, &l); dbus_bool_t ok = dbus_message_append_args (m, DBUS_TYPE_STRING, &v, DBUS_TYPE_INVALID); free (v); if (!ok) return FALSE; }
+      else if (a[0] == 'u') { dbus_uint32_t v = (dbus_uint32_t) strtoul (a + 1, NULL, 10); if (!dbus_message_append_args (m, DBUS_TYPE_UINT32, &v, DBUS_TYPE_INVALID)) return FALSE; }
+      else if (a[0] == 'y') { unsigned char v = (unsigned char) atoi (a + 1); if (!dbus_message_append_args (m, DBUS_TYPE_BYTE, &v, DBUS_TYPE_INVALID)) return FALSE; }
+      else if (a[0] == 't') { dbus_uint64_t v = strtoull (a + 1, NULL, 10); if (!dbus_message_append_args (m, DBUS_TYPE_UINT64, &v, DBUS_TYPE_INVALID)) return FALSE; }
+      else if (a[0] == 'a')
+        {
+          char tmp[2048]; char *vals[32]; const char **pv = (const char **) vals; int nv = 0, l; char *q; dbus_bool_t ok; int j;
+          strncpy (tmp, a + 1, sizeof tmp - 1); tmp[sizeof tmp - 1] = 0;
+          for (q = strtok (tmp, ":"); q && nv < 32; q = strtok (NULL, ":")) vals[nv++] = (char *) unhex (q, &l);
+          ok = dbus_message_append_args (m, DBUS_TYPE_ARRAY, DBUS_TYPE_STRING, &pv, nv, DBUS_TYPE_INVALID);
+          for (j = 0; j < nv; j++) free (vals[j]);
+          if (!ok) return FALSE;
+        }
+      else die ("bad lib arg");
+    }
+  return TRUE;
+}
+
+static const char *cfg_text (int n)
+{
+  switch (n)
+    {
+    case 0: return "<busconfig><listen>debug-pipe:name=x</listen></busconfig>";
+    case 1: return "<busconfig><type>session</type><listen>debug-pipe:name=x</listen><policy context=\"default\"><allow send_destination=\"*\" eavesdrop=\"true\"/><allow eavesdrop=\"true\"/><allow own=\"*\"/></policy>"
+                   "<limit name=\"max_incoming_bytes\">1000000</limit><limit name=\"max_names_per_connection\">50</limit></busconfig>";
+    case 2: return "<busconfig><user>root</user><listen>unix:path=/tmp/x</listen><listen>debug-pipe:name=y</listen><auth>EXTERNAL</auth><servicedir>/tmp/none</servicedir>"
+                   "<policy user=\"root\"><allow own=\"a.b\"/><deny send_interface=\"c.d\" send_member=\"E\"/></policy><policy context=\"mandatory\"><deny receive_type=\"signal\" receive_path=\"/x\"/></policy>"
+                   "<policy at_console=\"true\"><allow own_prefix=\"q.r\"/></policy><selinux><associate own=\"a.b\" context=\"c\"/></selinux><apparmor mode=\"disabled\"/></busconfig>";
+    default: return "<busconfig><listen>debug-pipe:name=x</listen><policy context=\"default\"><allow bogus=\"1\"/></policy></busconfig>";   /* invalid: a parse error, not OOM */
+    }
+}
+
+/* one attempt with the k-th allocation failing; verdict into o; returns whether a failure was injected */
+static int lib_attempt (char **tok, int ntok, int k, Buf *o)
+{
+  const char *op = tok[1];
+  int failed;
+  DBusMessage *m = NULL, *r = NULL; char *before = NULL, *after = NULL;
+  dbus_bool_t ok = FALSE; DBusError err = DBUS_ERROR_INIT; void *obj = NULL;
+  int is_msg_op = strcmp (op, "append") == 0 || strcmp (op, "set") == 0 || strcmp (op, "copy") == 0;
+  char *setval = NULL; int l;
+  /* warm up the library's global caches so that they do not show up as growth */
+  { DBusMessage *w = base_message (); dbus_message_unref (w); }
+  if (is_msg_op)
+    {
+      m = base_message ();
+      if (strcmp (op, "copy") == 0 && !append_args (m, tok + 2, ntok - 2)) die ("oom");
+      before = msg_hex (m);
+    }
+  if (strcmp (op, "new") == 0 && (strcmp (tok[2], "ret") == 0 || strcmp (tok[2], "err") == 0)) m = base_message ();
+  if (strcmp (op, "set") == 0 && strcmp (tok[2], "serial") != 0) setval = (char *) unhex (tok[3], &l);
+  if (strcmp (op, "config") == 0)
+    { FILE *f = fopen (cfg_path, "w"); if (!f) die ("cfg"); fputs (cfg_text (atoi (tok[2])), f); fclose (f); }
+  alloc_seen = 0;
+  _dbus_set_fail_alloc_counter (k);
+  if (strcmp (op, "new") == 0)
+    {
+      int a; char *d = strcmp (tok[3], "-") ? (char *) unhex (tok[3], &a) : NULL, *pa = (char *) unhex (tok[4], &a), *i = (char *) unhex (tok[5], &a), *me = (char *) unhex (tok[6], &a);
+      if (strcmp (tok[2], "call") == 0) r = dbus_message_new_method_call (d, pa, i, me);
+      else if (strcmp (tok[2], "signal") == 0) r = dbus_message_new_signal (pa, i, me);
+      else r = strcmp (tok[2], "ret") == 0 ? dbus_message_new_method_return (m) : dbus_message_new_error (m, i, me);
+      ok = r != NULL;
+      free (d); free (pa); free (i); free (me);
+    }
+  else if (strcmp (op, "append") == 0) ok = append_args (m, tok + 2, ntok - 2);
+  else if (strcmp (op, "copy") == 0) { r = dbus_message_copy (m); ok = r != NULL; }
+  else if (strcmp (op, "set") == 0)
+    {
+      const char *f = tok[2];
+      if (strcmp (f, "destination") == 0) ok = dbus_message_set_destination (m, setval);
+      else if (strcmp (f, "sender") == 0) ok = dbus_message_set_sender (m, setval);
+      else if (strcmp (f, "member") == 0) ok = dbus_message_set_member (m, setval);
+      else if (strcmp (f, "interface") == 0) ok = dbus_message_set_interface (m, setval);
+      else if (strcmp (f, "path") == 0) ok = dbus_message_set_path (m, setval);
+      else if (strcmp (f, "error_name") == 0) ok = dbus_message_set_error_name (m, setval);
+      else if (strcmp (f, "serial") == 0) ok = dbus_message_set_reply_serial (m, (dbus_uint32_t) strtoul (tok[3], NULL, 10));
+      else die ("bad field");
+    }
+  else if (strcmp (op, "rule") == 0)
+    {
+      char *t = (char *) unhex (tok[2], &l); DBusString str;
+      _dbus_string_init_const (&str, t);
+      obj = bus_match_rule_parse (NULL, &str, &err);
+      ok = obj != NULL;
+      free (t);
+    }
+  else if (strcmp (op, "config") == 0)
+    {
+      DBusString str; _dbus_string_init_const (&str, cfg_path);
+      obj = bus_config_load (&str, TRUE, NULL, &err);
+      ok = obj != NULL;
+    }
+  else die ("bad lib op");
+  failed = _dbus_get_fail_alloc_counter () > k;
+  _dbus_set_fail_alloc_counter (_DBUS_INT_MAX);
+  /* verdict */
+  if (is_msg_op) after = msg_hex (m);
+  if (ok)
+    {
+      bput (o, "ok:");
+      if (r) { char *h; if (dbus_message_get_serial (r) == 0) dbus_message_set_serial (r, 9); h = msg_hex (r); bput (o, "%s", h); free (h); }
+      else if (is_msg_op) bput (o, "%s", after);
+      else if (obj) bput (o, "parsed");
+      if (strcmp (op, "copy") == 0 && strcmp (before, after) != 0) bput (o, "|BAD:source-changed");
+    }
+  else
+    {
+      int oom = !dbus_error_is_set (&err) || dbus_error_has_name (&err, DBUS_ERROR_NO_MEMORY);
+      if (!oom) bput (o, "err:%s", err.name);
+      else if (is_msg_op && strcmp (before, after) != 0)
+        {
+          /* would a peer still accept the bytes? */
+          int n; unsigned char *raw = unhex (after, &n); DBusError e2 = DBUS_ERROR_INIT;
+          DBusMessage *re = dbus_message_demarshal ((const char *) raw, n, &e2);
+          bput (o, "BAD:reported-failure-but-message-changed:reparse=%s:len%+d", re ? "ok" : "invalid", (int) (strlen (after) - strlen (before)) / 2);
+          if (re) dbus_message_unref (re);
+          dbus_error_free (&e2); free (raw);
+        }
+      else bput (o, "oom-unchanged");
+      if (!failed && oom) bput (o, "|BAD:oom-without-injection");
+    }
+  if (obj && strcmp (op, "rule") == 0) bus_match_rule_unref (obj);
+  if (obj && strcmp (op, "config") == 0) bus_config_parser_unref (obj);
+  dbus_error_free (&err);
+  if (r) dbus_message_unref (r);
+  if (m) dbus_message_unref (m);
+  free (before); free (after); free (setval);
+  dbus_shutdown ();
+  if (_dbus_get_malloc_blocks_outstanding () != 0) bput (o, "|BAD:leak=%d", _dbus_get_malloc_blocks_outstanding ());
+  return failed;
+}
+
+static void lib_case (char **tok, int ntok, Buf *res)
+{
+  Buf cur = { NULL, 0, 0 }, prev = { NULL, 0, 0 };
+  int k, run = 0, first = 1;
+  breset (&cur); breset (&prev);
+  for (k = 0; k < 20000; k++)
+    {
+      int failed;
+      breset (&cur);
+      failed = lib_attempt (tok, ntok, k, &cur);
+      { Buf t = { NULL, 0, 0 }; breset (&t); bput (&t, "f%d|%s", failed, cur.b); breset (&cur); bput (&cur, "%s", t.b); free (t.b); }
+      if (strcmp (cur.b, prev.b) == 0) run++;
+      else { if (run > 0) { bput (res, "%s%d*%s", first ? "" : " ## ", run, prev.b); first = 0; } breset (&prev); bput (&prev, "%s", cur.b); run = 1; }
+      if (!failed) break;
+    }
+  if (run > 0) bput (res, "%s%d*%s", first ? "" : " ## ", run, prev.b);
+  bput (res, " ## end k=%d", k + 1);
+  free (cur.b); free (prev.b);
+}
+
 int main (void)
 {
   static char line[1 << 16];
@@ -708,6 +909,7 @@ int main (void)
       breset (&res);
       for (p = strtok (line, " "); p && ntok < 256; p = strtok (NULL, " ")) tok[ntok++] = p;
       if (ntok >= 6 && strcmp (tok[0], "bus") == 0) bus_case (tok, ntok, &res);
+      else if (ntok >= 3 && strcmp (tok[0], "lib") == 0) lib_case (tok, ntok, &res);
       else bput (&res, "?");
       puts (res.b);
       fflush (stdout);
